@@ -141,6 +141,7 @@ func goBuild(dir, out string, race bool) (string, error) {
 // adds the simulator overlay, instruments the library and builds both flavours.
 func prepare(repo, verifDir string, forcePlain bool) (*prepared, error) {
 	t0 := time.Now()
+	sweepStale()
 	scratch, err := os.MkdirTemp("", "c14-")
 	if err != nil {
 		return nil, err
@@ -226,6 +227,16 @@ func prepare(repo, verifDir string, forcePlain bool) (*prepared, error) {
 	}
 	p.BuildS = time.Since(t0).Seconds()
 	return p, nil
+}
+
+// sweepStale removes scratch copies that an earlier, killed run left behind.
+func sweepStale() {
+	old, _ := filepath.Glob(filepath.Join(os.TempDir(), "c14-*"))
+	for _, d := range old {
+		if fi, err := os.Stat(d); err == nil && fi.IsDir() && time.Since(fi.ModTime()) > 6*time.Hour {
+			os.RemoveAll(d)
+		}
+	}
 }
 
 func firstLines(s string, n int) string {
